@@ -34,6 +34,7 @@ static inline void gen_options(Rng &r, Op &o, bool square, bool cplx) {
     o.permc_seed = r.next();
     o.nrhs = r.chance(0.1) ? 0 : r.range(1, 3); o.ldpad = r.chance(0.3) ? r.range(1, 3) : 0; o.rhs_seed = r.next();
     o.ldxpad = (o.rhs_seed & 1) ? -1 : (int)((o.rhs_seed >> 1) % 4); // X gets its own leading dimension (derived, no extra draw)
+    if (o.refine == SLU_DOUBLE && (o.rhs_seed & 32)) o.refine = SLU_EXTRA; // all three refinement settings (derived)
 }
 static inline void gen_ilu_options(Rng &r, Op &o) {
     static const int rules[] = {DROP_BASIC | DROP_AREA, DROP_BASIC, DROP_BASIC | DROP_PROWS, DROP_BASIC | DROP_COLUMN, DROP_BASIC | DROP_AREA | DROP_DYNAMIC,
